@@ -26,6 +26,8 @@ type faultCase struct {
 	// the path it was built at
 	Root string `json:"root"`
 	Tree string `json:"tree"`
+	// M: the case is about the metrics segment (TestC18Metrics)
+	M bool `json:"m,omitempty"`
 }
 
 func (f *faultCase) String() string {
@@ -78,17 +80,27 @@ var xorMasks = []int{0x01, 0x80, 0x5a}
 // allFaults lists every truncation length and every single-byte modification
 // (xor 0x01, xor 0x80, xor 0x5a, set 0x00, set 0xff) of every file of the damaged segment.
 func (e *envT) allFaults() []*faultCase {
+	return faultsOf(e.files, e.seed, e.blobRoot, e.blob, false)
+}
+
+func faultsOf(files []*segFile, ds int, root, blob string, metrics bool) []*faultCase {
 	var out []*faultCase
-	for _, f := range e.files {
+	for _, f := range files {
+		f := f
 		reg := regionsOf(f)
 		mk := func(op string, pos, val int) *faultCase {
-			return &faultCase{DS: e.seed, Rel: f.Rel, Kind: f.Kind, Col: f.Col, Op: op, Pos: pos, Val: val, Region: reg[pos],
-				Size: len(f.Data), CRC: f.CRC, Root: e.blobRoot, Tree: e.blob}
+			return &faultCase{DS: ds, Rel: f.Rel, Kind: f.Kind, Col: f.Col, Op: op, Pos: pos, Val: val, Region: reg[pos],
+				Size: len(f.Data), CRC: f.CRC, Root: root, Tree: blob, M: metrics}
 		}
-		for l := 0; l < len(f.Data); l++ {
-			out = append(out, mk("trunc", l, 0))
+		if !f.NoTrunc {
+			for l := 0; l < len(f.Data); l++ {
+				out = append(out, mk("trunc", l, 0))
+			}
 		}
 		for p := 0; p < len(f.Data); p++ {
+			if f.NoTrunc && p == len(f.Data)-1 {
+				continue // the newline that separates this line from the next segment's
+			}
 			for _, m := range xorMasks {
 				out = append(out, mk("xor", p, m))
 			}
@@ -148,8 +160,10 @@ func sample(all []*faultCase, budget int, seed int64) []*faultCase {
 }
 
 // apply writes the damaged version of the file into dataDir (which holds the pristine tree).
-func (e *envT) apply(fc *faultCase, f *segFile) error {
-	p := filepath.Join(e.dataDir, f.Rel)
+func (e *envT) apply(fc *faultCase, f *segFile) error { return applyFault(e.dataDir, fc, f) }
+
+func applyFault(dataDir string, fc *faultCase, f *segFile) error {
+	p := filepath.Join(dataDir, f.Rel)
 	whole, err := os.ReadFile(p)
 	if err != nil {
 		return err
